@@ -36,10 +36,11 @@ fn receive_all_vs_decoder<const N: usize>() {
     let mut phy = KPhy::<N, 4>::idle_with(buf, len);
     let now = crate::time::Instant::ZERO;
 
-    let mut got = [NOREC; 12];
+    // up to N telegrams fit into N bytes (short confirmations)
+    let mut got = [NOREC; N];
     let mut ngot = 0usize;
     let res = phy.receive_all_telegrams(now, |t, is_last| {
-        if ngot < 12 {
+        if ngot < N {
             got[ngot] = rec_of(&t, is_last);
         }
         ngot += 1;
@@ -56,7 +57,7 @@ fn receive_all_vs_decoder<const N: usize>() {
         match Telegram::deserialize(&buf[off..len]) {
             Some(Ok((t, n))) => {
                 let is_last = off + n == len;
-                vassert!(k < ngot && k < 12 && got[k] == rec_of(&t, is_last), "C16/exact: exactly the buffered telegrams are handed to the caller, in order, flagged last iff nothing is buffered behind");
+                vassert!(k < ngot && k < N && got[k] == rec_of(&t, is_last), "C16/exact: exactly the buffered telegrams are handed to the caller, in order, flagged last iff nothing is buffered behind");
                 k += 1;
                 off += n;
                 last_flagged = is_last;
@@ -93,9 +94,9 @@ fn c16_receive_all_vs_decoder_q() {
 }
 
 #[kani::proof]
-#[kani::unwind(20)]
+#[kani::unwind(16)]
 fn c16_receive_all_vs_decoder_t() {
-    receive_all_vs_decoder::<16>();
+    receive_all_vs_decoder::<12>();
 }
 
 /// receive_telegram: at most the first buffered telegram is handed over.
